@@ -277,7 +277,8 @@ PROPS["C04"]["technique"] = ("AST if-conversion of the allocator into one SMT qu
 
 PROPS["C10"] = P(
     "(1) every committed snapshot inside every operation (the states a kill -9 can leave) has no foreign-key "
-    "violation and no duplicate nameplate / mailbox / side record (C10.crash_inv, all operations, with and "
+    "violation, no duplicate nameplate / mailbox / side record and no NULL in a column the server reads without a "
+    "NULL test (C10.crash_inv, all operations, with and "
     "without usage store); (2) from every crash-shaped pre-state (INV without the between-commit clauses: a "
     "mailbox may lack side rows, a claim row may lack its mailbox side row, no open / claimed side required) "
     "the restarted server's expire() raises and logs nothing and deletes everything old, with and without "
